@@ -123,3 +123,4 @@ def worker_threads_rule(ctx):
            "init_scheduler starts exactly `%s` worker threads, the number of queues given to Scheduler::new" % W if bad is None else
            "%s: a worker id without a thread has a global queue that nobody drains - coroutines routed to it never run" % bad[1], f.where(bad[0] if bad else spawns[0]))
     shared.scheduler_drain_rules(ctx)
+    ctx.import_rules("C02", r"^atomic-option/")
